@@ -1,4 +1,5 @@
 //! nbverif: pure executor. Reads cases on stdin, writes one observation line per case.
+mod dim;
 mod html;
 mod list;
 mod prefix;
@@ -14,6 +15,7 @@ fn main() {
     // keep panic messages out of stderr noise; harness functions use catch_unwind
     std::panic::set_hook(Box::new(|_| {}));
     match args[1].as_str() {
+        "dim" => dim::main(),
         "html" => html::main(),
         "list" => list::main(),
         "prefix" => prefix::main(),
